@@ -75,6 +75,8 @@ def _run_job(job):
 
 def run_jobs(jobs, nproc=None):
     nproc = nproc or NPROC
+    if os.environ.get('VERIF_ONLY'):       # development aid: run only the jobs whose entry matches (never used by the registered commands)
+        jobs = [j for j in jobs if re.search(os.environ['VERIF_ONLY'], j['entry'])]
     if nproc <= 1 or len(jobs) <= 1:
         return [_run_job(j) for j in jobs]
     ctx = mp.get_context('fork')
